@@ -320,6 +320,236 @@ hex_harness! {
     fn c16_malformed_bin6() { malformed_bin::<6>(); }
 }
 
+// ---- header validation: one header field is a varint of exactly N bytes (all positions concrete, all payload
+// bits symbolic), the other two are single bytes; no step data follows ----------------------------------------
+
+fn header_field<const POS: usize, const N: usize>() {
+    let raw: [u8; N] = kani::any();
+    let a: u8 = kani::any::<u8>() & 0x7f;
+    let b: u8 = kani::any::<u8>() & 0x7f;
+    // The announced length is checked behind the entry of step decoding, where the solver's path ends; it is fixed to
+    // 0 when it is one of the single-byte fields so that a counterexample (an invalid header that gets through)
+    // replays natively as "decoded into the empty schedule" rather than being rejected by that later check.
+    let a = if POS == 0 { 0 } else { a };
+    let b = if POS == 2 { 0 } else { b };
+    let mut v = Vec::with_capacity(N + 3);
+    v.push(SCHEDULE_MAGIC_V2);
+    if POS == 1 {
+        v.push(a);
+    }
+    if POS == 2 {
+        v.push(a);
+        v.push(b);
+    }
+    // reference value of the LEB128 group sequence (u128: a tenth group can carry bits above 63)
+    let mut big: u128 = 0;
+    let mut last = 0u8;
+    let mut i = 0;
+    while i < N {
+        let byte = if i + 1 < N { raw[i] | 0x80 } else { raw[i] & 0x7f };
+        v.push(byte);
+        big |= ((byte & 0x7f) as u128) << (7 * i);
+        last = byte;
+        i += 1;
+    }
+    if POS == 0 {
+        v.push(a);
+        v.push(b);
+    }
+    if POS == 1 {
+        v.push(b);
+    }
+    // a ten-byte varint is valid only with a final byte of exactly 1 (bit 63)
+    let varint_ok = N < 10 || last == 1;
+    let (w, l, sd) = match POS {
+        0 => (big, a as u128, b as u128),
+        1 => (a as u128, big, b as u128),
+        _ => (a as u128, b as u128, big),
+    };
+    let header_ok = varint_ok && w >= 1 && w <= usize::BITS as u128;
+    unsafe { HEADER_OK = header_ok };
+    #[cfg(not(kani))]
+    let native_hex = hex::encode(&v);
+    unsafe { HEX_BYTES = Some(v) };
+    #[cfg(kani)]
+    let r = deserialize_schedule("");
+    #[cfg(not(kani))]
+    let r = deserialize_schedule(&native_hex);
+    // Under Kani the path of a header that enters step decoding ends there (`bitslice_from_slice_stub`, which asserts
+    // that the header was valid); natively the whole parser runs. Whatever returns must be right either way: no step
+    // data follows, so only the empty schedule can be announced, and only by a valid header.
+    assert!(
+        r.is_some() == (header_ok && l == 0),
+        "C16: header validation is wrong (width must be 1..=64, the announced length must fit the data, over-long varints are invalid)"
+    );
+    if let Some(d) = &r {
+        assert!(d.seed as u128 == sd && d.steps.is_empty(), "C16: header fields decoded wrongly");
+    }
+    kani::cover!(r.is_none() && (w > 64 || !varint_ok), "an over-wide task id width / over-long varint is rejected");
+    std::mem::forget(r);
+}
+
+static mut HEADER_OK: bool = false;
+
+/// Stand-in for `BitSlice::from_slice`, the entry of step decoding: everything behind it goes through the `bitvec`
+/// crate, which CBMC cannot encode within 12 GB (DESIGN.md 2.1). The path ends here; what is checked is that the
+/// header validation in front of it lets only valid headers through.
+#[cfg(kani)]
+pub fn bitslice_from_slice_stub<T: bitvec::store::BitStore, O: bitvec::order::BitOrder>(_s: &[T]) -> &bitvec::slice::BitSlice<T, O> {
+    assert!(unsafe { HEADER_OK }, "C16: header validation let an invalid header through to step decoding");
+    kani::cover!(true, "a valid header reaches step decoding");
+    kani::assume(false);
+    unreachable!()
+}
+
+hex_harness! {
+    #[kani::stub(bitvec::slice::BitSlice::from_slice, crate::c16::bitslice_from_slice_stub)]
+    #[kani::unwind(12)]
+    fn c16_header_width_1() { header_field::<0, 1>(); }
+}
+hex_harness! {
+    #[kani::stub(bitvec::slice::BitSlice::from_slice, crate::c16::bitslice_from_slice_stub)]
+    #[kani::unwind(12)]
+    fn c16_header_width_2() { header_field::<0, 2>(); }
+}
+hex_harness! {
+    #[kani::stub(bitvec::slice::BitSlice::from_slice, crate::c16::bitslice_from_slice_stub)]
+    #[kani::unwind(12)]
+    fn c16_header_width_5() { header_field::<0, 5>(); }
+}
+hex_harness! {
+    #[kani::stub(bitvec::slice::BitSlice::from_slice, crate::c16::bitslice_from_slice_stub)]
+    #[kani::unwind(12)]
+    fn c16_header_width_9() { header_field::<0, 9>(); }
+}
+hex_harness! {
+    #[kani::stub(bitvec::slice::BitSlice::from_slice, crate::c16::bitslice_from_slice_stub)]
+    #[kani::unwind(12)]
+    fn c16_header_width_10() { header_field::<0, 10>(); }
+}
+hex_harness! {
+    #[kani::stub(bitvec::slice::BitSlice::from_slice, crate::c16::bitslice_from_slice_stub)]
+    #[kani::unwind(12)]
+    fn c16_header_len_5() { header_field::<1, 5>(); }
+}
+hex_harness! {
+    #[kani::stub(bitvec::slice::BitSlice::from_slice, crate::c16::bitslice_from_slice_stub)]
+    #[kani::unwind(12)]
+    fn c16_header_len_9() { header_field::<1, 9>(); }
+}
+hex_harness! {
+    #[kani::stub(bitvec::slice::BitSlice::from_slice, crate::c16::bitslice_from_slice_stub)]
+    #[kani::unwind(12)]
+    fn c16_header_len_10() { header_field::<1, 10>(); }
+}
+hex_harness! {
+    #[kani::stub(bitvec::slice::BitSlice::from_slice, crate::c16::bitslice_from_slice_stub)]
+    #[kani::unwind(12)]
+    fn c16_header_seed_5() { header_field::<2, 5>(); }
+}
+hex_harness! {
+    #[kani::stub(bitvec::slice::BitSlice::from_slice, crate::c16::bitslice_from_slice_stub)]
+    #[kani::unwind(12)]
+    fn c16_header_seed_9() { header_field::<2, 9>(); }
+}
+hex_harness! {
+    #[kani::stub(bitvec::slice::BitSlice::from_slice, crate::c16::bitslice_from_slice_stub)]
+    #[kani::unwind(12)]
+    fn c16_header_seed_10() { header_field::<2, 10>(); }
+}
+
+// ---- step decoding: a well-formed header with literal id width W and one symbolic data byte -------------------
+
+fn steps_1byte<const W: usize>() {
+    let len: u8 = kani::any();
+    kani::assume(len <= 9);
+    let data: u8 = kani::any();
+    let mut v = Vec::with_capacity(5);
+    v.push(SCHEDULE_MAGIC_V2);
+    v.push(W as u8);
+    v.push(len);
+    v.push(3u8);
+    v.push(data);
+    #[cfg(not(kani))]
+    let native_hex = hex::encode(&v);
+    unsafe { HEX_BYTES = Some(v) };
+    #[cfg(kani)]
+    let r = deserialize_schedule("");
+    #[cfg(not(kani))]
+    let r = deserialize_schedule(&native_hex);
+    // reference decoder over the 8 data bits (least significant bit first)
+    let mut ok = len <= 8;
+    let mut off = 0usize;
+    let mut exp = [0usize; 8]; // usize::MAX = random marker
+    let mut i = 0usize;
+    crate::unroll!(8, {
+        if ok && i < len as usize {
+            if off >= 8 {
+                ok = false;
+            } else if (data >> off) & 1 == 1 {
+                exp[i] = usize::MAX;
+                off += 1;
+            } else if off + 1 + W > 8 {
+                ok = false;
+            } else {
+                exp[i] = ((data as usize) >> (off + 1)) & ((1usize << W) - 1);
+                off += 1 + W;
+            }
+        }
+        i += 1;
+    });
+    assert!(r.is_some() == ok, "C16: a cut-short step sequence must be rejected and a complete one decoded");
+    if let Some(d) = &r {
+        assert!(d.seed == 3 && d.steps.len() == len as usize, "C16: header fields decoded wrongly");
+        let mut j = 0usize;
+        while j < d.steps.len() {
+            let want = if exp[j] == usize::MAX { ScheduleStep::Random } else { ScheduleStep::Task(TaskId::from(exp[j])) };
+            assert!(d.steps[j] == want, "C16: step decoded wrongly");
+            j += 1;
+        }
+    }
+    kani::cover!(r.is_some() && len >= 2, "a schedule of at least two steps is decoded");
+    kani::cover!(r.is_none() && len <= 8, "a cut-short schedule is rejected");
+    std::mem::forget(r);
+}
+
+hex_harness! {
+    #[kani::unwind(12)]
+    fn c16_steps_1byte_w1() { steps_1byte::<1>(); }
+}
+hex_harness! {
+    #[kani::unwind(12)]
+    fn c16_steps_1byte_w3() { steps_1byte::<3>(); }
+}
+hex_harness! {
+    #[kani::unwind(12)]
+    fn c16_steps_1byte_w7() { steps_1byte::<7>(); }
+}
+
+// ---- malformed input, longer vectors: every byte vector of length N is either rejected or reaches step decoding
+// (where the path ends, see `bitslice_from_slice_stub`) without panicking ------------------------------------------
+
+fn malformed_bin_cut<const N: usize>() {
+    unsafe { HEADER_OK = true }; // no claim about which headers get through (that is header_field's business)
+    malformed_bin::<N>();
+}
+
+hex_harness! {
+    #[kani::stub(bitvec::slice::BitSlice::from_slice, crate::c16::bitslice_from_slice_stub)]
+    #[kani::unwind(12)]
+    fn c16_header_total_bin4() { malformed_bin_cut::<4>(); }
+}
+hex_harness! {
+    #[kani::stub(bitvec::slice::BitSlice::from_slice, crate::c16::bitslice_from_slice_stub)]
+    #[kani::unwind(12)]
+    fn c16_header_total_bin6() { malformed_bin_cut::<6>(); }
+}
+hex_harness! {
+    #[kani::stub(bitvec::slice::BitSlice::from_slice, crate::c16::bitslice_from_slice_stub)]
+    #[kani::unwind(14)]
+    fn c16_header_total_bin12() { malformed_bin_cut::<12>(); }
+}
+
 hex_harness! {
     #[kani::unwind(12)]
     fn c16_nonhex_rejected() {
